@@ -107,6 +107,8 @@ def extract_main(src: str) -> dict:
             raise Unsupported(f"add_invertible_flag changed: missing `{needle}`")
     rows = []
     plain = []
+    strict: list[str] = []
+    valued: dict[str, dict] = {}
     # flags that exist only for the daemon (`if server_options:`) are not part of `mypy`'s command line
     server_only = set()
     for n in ast.walk(d):
@@ -131,6 +133,12 @@ def extract_main(src: str) -> dict:
             if not flag.startswith("--"):
                 raise Unsupported(f"flag {flag} does not start with --")
             rows.append((flag, inv, dflt.value, dest))
+            sf = kw.get("strict_flag")
+            if sf is not None:
+                if not (isinstance(sf, ast.Constant) and isinstance(sf.value, bool)):
+                    raise Unsupported(f"add_invertible_flag({flag}): strict_flag is not a bool literal")
+                if sf.value:
+                    strict.append(flag)
         elif isinstance(n.func, ast.Attribute) and n.func.attr == "add_argument" and not (
                 isinstance(n.func.value, ast.Name) and n.func.value.id == "group" and n in ast.walk(aif)):
             kw = {k.arg: k.value for k in n.keywords}
@@ -145,9 +153,38 @@ def extract_main(src: str) -> dict:
                     plain.append((s, dest, act.value == "store_true"))
             elif act is not None and not isinstance(act, ast.Constant) and not isinstance(act, ast.Name):
                 raise Unsupported(f"add_argument with computed action: {ast.dump(act)[:80]}")
+            else:
+                names = [a.value for a in n.args if isinstance(a, ast.Constant) and isinstance(a.value, str)]
+                longs = [x for x in names if x.startswith("--")]
+                if longs:
+                    info = {"action": act.value if isinstance(act, ast.Constant) else ("store" if act is None else "custom"),
+                            "dest": kw["dest"].value if isinstance(kw.get("dest"), ast.Constant) else longs[0][2:].replace("-", "_"),
+                            "type": ast.unparse(kw["type"]) if "type" in kw else None,
+                            "choices": [_const_str(c, "choice") for c in kw["choices"].elts] if isinstance(kw.get("choices"), ast.List) else None}
+                    for x in longs:
+                        valued[x] = info
     if len(rows) < 20:
         raise Unsupported(f"only {len(rows)} add_invertible_flag calls found")
-    return {"pairs": pairs, "rows": rows, "plain": plain}
+    # the strict machinery is pinned
+    aif_src = ast.unparse(aif)
+    for needle in ["if strict_flag:", "strict_flag_assignments.append((dest, not default))"]:
+        if needle not in aif_src:
+            raise Unsupported(f"add_invertible_flag changed: missing `{needle}`")
+    po = ast.unparse(_find(tree, ast.FunctionDef, "process_options"))
+    for needle in ["def set_strict_flags() -> None:\n        nonlocal strict_option_set\n        strict_option_set = True\n        for dest, value in strict_flag_assignments:\n            setattr(options, dest, value)",
+                   "parse_config_file(options, set_strict_flags, config_file, stdout, stderr)\n    if getattr(dummy, 'special-opts:strict'):\n        set_strict_flags()",
+                   "parser.parse_args(args, SplitNamespace(options, special_opts, 'special-opts:'))",
+                   "options.python_version = special_opts.python_version or options.python_version"]:
+        if needle not in po:
+            raise Unsupported(f"process_options changed: missing `{needle[:60]}`")
+    if valued.get("--strict", {}).get("dest") != "special-opts:strict" and ("--strict", "special-opts:strict", True) not in plain:
+        raise Unsupported("--strict is no longer a store_true flag into special-opts:strict")
+    if not strict:
+        raise Unsupported("no strict_flag=True flags found")
+    fi = valued.get("--follow-imports", {}).get("choices")
+    if not fi:
+        raise Unsupported("--follow-imports choices not found")
+    return {"pairs": pairs, "rows": rows, "plain": plain, "strict": strict, "valued": valued, "follow_imports_cli": fi}
 
 
 def extract_options(src: str) -> dict:
@@ -232,7 +269,48 @@ def extract_config_parser(src: str) -> dict:
                    "if 'enable_error_code' not in results:\n        results['enable_error_code'] = []"]:
         if needle not in whole:
             raise Unsupported(f"parse_section changed: missing `{needle}`")
-    return {"typed": typed, "aliases": aliases, "rules": rules}
+    cfi = _find(tree, ast.FunctionDef, "check_follow_imports")
+    ch = next((n.value for n in cfi.body if isinstance(n, ast.Assign) and ast.unparse(n.targets[0]) == "choices"), None)
+    if not isinstance(ch, ast.List):
+        raise Unsupported("check_follow_imports: choices list not found")
+    fi = [_const_str(c, "choice") for c in ch.elts]
+    # conversion functions transcribed by hand in C17.Model are pinned by their source text
+    pins = {
+        "split_commas": "def split_commas(value: str) -> list[str]:\n    items = value.split(',')\n    if items and items[-1] == '':\n        items.pop(-1)\n    return items",
+        "str_or_array_as_list": "def str_or_array_as_list(v: str | Sequence[str]) -> list[str]:\n    if isinstance(v, str):\n        return [v.strip()] if v.strip() else []\n    return [p.strip() for p in v if p.strip()]",
+    }
+    for name, want in pins.items():
+        f = _find(tree, ast.FunctionDef, name)
+        g = ast.parse(ast.unparse(f)).body[0]
+        g.body = [b for b in g.body if not (isinstance(b, ast.Expr) and isinstance(b.value, ast.Constant))]
+        if ast.unparse(g) != want:
+            raise Unsupported(f"{name} no longer has the transcribed shape")
+    pv = ast.unparse(_find(tree, ast.FunctionDef, "parse_version"))
+    for needle in ["m = re.match('\\\\A(\\\\d)\\\\.(\\\\d+)\\\\Z', str(v))", "if major == 2 and minor == 7:\n        pass", "elif major == 3:\n        if minor < defaults.PYTHON3_VERSION_MIN[1]:",
+                   "raise VersionTypeError(msg, fallback=defaults.PYTHON3_VERSION_MIN)", "return (major, minor)"]:
+        if needle not in pv:
+            raise Unsupported(f"parse_version changed: missing `{needle}`")
+    ts = ast.unparse(_find(tree, ast.FunctionDef, "try_split"))
+    for needle in ["items = [p.strip() for p in re.split(split_regex, v)]\n        if items and items[-1] == '':\n            items.pop(-1)\n        return items"]:
+        if needle not in ts:
+            raise Unsupported("try_split changed")
+    listy = {}
+    for k, v in zip(ict.keys, ict.values):
+        listy[_const_str(k, "key")] = ast.unparse(v)
+    tct = None
+    for n in ast.walk(tree):
+        if isinstance(n, ast.Call) and ast.unparse(n.func) == "toml_config_types.update" and isinstance(n.args[0], ast.Dict):
+            tct = {_const_str(k, "key"): ast.unparse(v) for k, v in zip(n.args[0].keys, n.args[0].values)}
+    if tct is None:
+        raise Unsupported("toml_config_types.update({...}) not found")
+    pmc = ast.unparse(_find(tree, ast.FunctionDef, "parse_mypy_comments"))
+    for needle in ["if 'python_version' in options:", "errors.append((lineno, 'python_version not supported in inline configuration'))",
+                   "parser['dummy'] = options", "parse_section('', template, set_strict_flags, parser['dummy'], ini_config_types, stderr=stderr)",
+                   "errors.append((lineno, 'Reports not supported in inline configuration'))", "if strict_found:",
+                   "new_sections['enable_error_code'] = sorted(set(neec + eec))", "new_sections['disable_error_code'] = sorted(set(ndec + dec))", "sections.update(new_sections)"]:
+        if needle not in pmc:
+            raise Unsupported(f"parse_mypy_comments changed: missing `{needle}`")
+    return {"typed": typed, "aliases": aliases, "rules": rules, "follow_imports_cfg": fi, "ini_conv": listy, "toml_conv": tct}
 
 
 def parse_rule(n: ast.If) -> tuple[str, int, str]:
@@ -289,6 +367,19 @@ def gen_flags() -> str:
     out.append("(* add_argument(spelling, action=store_true/store_false, dest=): (spelling, (dest, stored value)) *)\n"
                "Definition plain_bool_flags : list (string * (string * bool)) :=\n  "
                + coq_list([f"({coq_str(f)}, ({coq_str(d)}, {'true' if v else 'false'}))" for f, d, v in m["plain"]]) + ".")
+    out.append("(* flags declared with strict_flag=True, in declaration order *)\nDefinition strict_flags : list string :=\n  " + coq_list([coq_str(x) for x in m["strict"]]) + ".")
+    out.append("Definition follow_imports_choices_cli : list string :=\n  " + coq_list([coq_str(x) for x in m["follow_imports_cli"]]) + ".")
+    out.append("Definition follow_imports_choices_cfg : list string :=\n  " + coq_list([coq_str(x) for x in c["follow_imports_cfg"]]) + ".")
+    dsrc = ast.parse(vlib.read_repo("mypy/defaults.py"))
+    vmin = _assign_value(dsrc, "PYTHON3_VERSION_MIN")
+    if not (isinstance(vmin, ast.Tuple) and len(vmin.elts) == 2 and all(isinstance(e, ast.Constant) and isinstance(e.value, int) for e in vmin.elts) and vmin.elts[0].value == 3):
+        raise Unsupported("defaults.PYTHON3_VERSION_MIN is not (3, n)")
+    out.append(f"Definition python3_min_minor : nat := {vmin.elts[1].value}.")
+    # which config keys use the plain comma-list conversion in ini and try_split in toml
+    lam = "lambda s: [p.strip() for p in split_commas(s)]"
+    comma_keys = sorted(k for k, v in c["ini_conv"].items() if v == lam and c["toml_conv"].get(k) in ("try_split", "lambda s: try_split(s)"))
+    out.append("(* keys converted by [p.strip() for p in split_commas(s)] in ini and by try_split in toml *)\n"
+               "Definition comma_list_keys : list string :=\n  " + coq_list([coq_str(x) for x in comma_keys]) + ".")
     out.append("Definition per_module_options : list string :=\n  " + coq_list([coq_str(s) for s in o["per_module"]]) + ".")
     out.append("(* Options.__init__ attributes (and methods, which also answer hasattr) *)\n"
                "Definition option_attrs : list (string * attr_kind) :=\n  "
